@@ -15,12 +15,14 @@ structure Scan where
   stack : List (List String) := []  -- saved `held` at enclosing branch starts
   inGo : Bool := false
   out : List (String × List String × Bool) := []   -- (write target, locks held, inside a goroutine closure)
+  rd : List (String × List String × Bool) := []    -- (read target, locks held, inside a goroutine closure)
 
 def scanStep (s : Scan) : Ev → Scan
   | .lock m => { s with held := m :: s.held }
   | .unlock m => { s with held := s.held.erase m }
   | .deferUnlock m => { s with deferred := m :: s.deferred }
   | .write t => { s with out := s.out ++ [(t, s.held, s.inGo)] }
+  | .read t => { s with rd := s.rd ++ [(t, s.held, s.inGo)] }
   | .atomicOp _ => s
   | .goStart => { s with inGo := true, stack := s.held :: s.stack, held := [] }   -- a new goroutine holds nothing
   | .goEnd => match s.stack with
@@ -44,6 +46,17 @@ def writesOf (fn : String) : List (String × List String × Bool) :=
 def guarded (fn : String) (prefixes : List String) (m : String) : Bool :=
   let ws := (writesOf fn).filter fun w => prefixes.any fun p => w.1.startsWith p
   !ws.isEmpty && ws.all fun w => w.2.1.contains m
+
+/-- the recorded reads of one function with the mutexes held at each -/
+def readsOf (fn : String) : List (String × List String × Bool) :=
+  match events.find? (·.1 == fn) with
+  | some e => (e.2.foldl scanStep {}).rd
+  | none => []
+
+/-- every recorded read of `fn` from a target with one of the given prefixes holds mutex `m`; and there is at least one -/
+def guardedReads (fn : String) (prefixes : List String) (m : String) : Bool :=
+  let rs := (readsOf fn).filter fun w => prefixes.any fun p => w.1.startsWith p
+  !rs.isEmpty && rs.all fun w => w.2.1.contains m
 
 /-! ### traces -/
 
